@@ -39,7 +39,7 @@ def project(nfiles, fmt):
 
 
 def bounds(tier):
-    return {"configs": ["black", "cmd"], "files": [3] if tier == "quick" else [1, 2, 3], "kinds": faults.KINDS}
+    return {"configs": ["black", "cmd"], "files": [3] if tier == "quick" else [1, 2, 3], "kinds": faults.KINDS, "fault_pairs": "none" if tier == "quick" else "survivable formatter fault x later fault at open/write/rename/formatter boundaries (3-file change set)"}
 
 
 def _run(files, target, second=True):
@@ -128,11 +128,13 @@ def _judge(case, files, new_ast, new_bytes=None):
     r = res["r"]
     if not res["fired"]:
         return [{"case": case, "what": "harness-fault-did-not-fire", "detail": "counts %s" % res["counts"]}]
-    kind = case["target"][2]
+    pair = not isinstance(case["target"][0], str)
+    last = case["target"][-1] if pair else case["target"]
+    kind = last[2]
     v = _check_state(res["s1"], files, new_ast, "after the faulty session:")
     if v is None and res["s2"] is not None:
         v = _check_state(res["s2"], files, new_ast, "after the following plain session:")
-    if v is None and case["target"][0] in ("format_str", "sp_run") and kind in ("raise", "nonzero", "killed"):
+    if v is None and not pair and case["target"][0] in ("format_str", "sp_run") and kind in ("raise", "nonzero", "killed"):
         # a formatter crash / non-zero exit must degrade to a reported problem, not to an aborted finish phase
         if "Problems" not in r["out"] and "INTERNALERROR" not in r["out"] and "Traceback" not in r["out"]:
             v = ("formatter-fault-not-reported", r["out"][-400:])
@@ -141,7 +143,7 @@ def _judge(case, files, new_ast, new_bytes=None):
                 v = ("formatter-fault-aborts-session-finish", r["out"][-500:])
     if v:
         sig = None
-        if (case["target"][0] in ("open_bw", "write") and kind in ("exit_after", "raise", "exit_mid")
+        if (last[0] in ("open_bw", "write") and kind in ("exit_after", "raise", "exit_mid")
                 and v[0] in ("half-written-test-file", "test-file-neither-old-nor-complete-new") and new_bytes):
             # residual test: the only defect is a truncated (prefix of the complete new content) file
             if _check_state(res["s1"], files, new_ast, "", prefix_of=new_bytes) is None and (
@@ -169,6 +171,14 @@ def explore(tier, seed, runner):
             for i in range(n):
                 for k in faults.KINDS[b]:
                     cases.append({"nfiles": t["record"]["nfiles"], "fmt": t["record"]["fmt"], "target": [b, i, k]})
+        if tier == "thorough" and t["record"]["nfiles"] == 3:
+            # pairs: a survivable formatter fault followed by any fault at a later write-path boundary
+            first = [c["target"] for c in cases if (c["target"][0], c["target"][2]) in (("format_str", "raise"), ("sp_run", "nonzero"), ("sp_run", "killed"), ("sp_run", "garbage"))]
+            second = [c["target"] for c in cases if c["target"][0] in ("open_bw", "write", "rename", "format_str", "sp_run")]
+            for a in first:
+                for b2 in second:
+                    if (a[0], a[1]) != (b2[0], b2[1]) and (b2[0] != a[0] or b2[1] > a[1]):
+                        cases.append({"nfiles": 3, "fmt": t["record"]["fmt"], "target": [a, b2]})
         for i in range(0, len(cases), 6):
             tasks.append({"cases": cases[i : i + 6], "new_ast": new_ast, "new_bytes": new_bytes})
     for t, r in zip(tasks, runner(tasks)):
@@ -202,7 +212,8 @@ def run_task(task):
         files = project(case["nfiles"], case["fmt"])
         vs = _judge(case, files, task["new_ast"], task.get("new_bytes"))
         out["n"] += 1
-        lab = "ok:%s:%s" % (case["target"][0], case["target"][2])
+        tg = case["target"]
+        lab = "ok:pair:%s:%s" % (tg[1][0], tg[1][2]) if not isinstance(tg[0], str) else "ok:%s:%s" % (tg[0], tg[2])
         if vs:
             out["violations"] += vs
             lab = "viol:" + vs[0]["what"]
